@@ -269,6 +269,7 @@ type Interp struct {
 	callNames  []string
 	intEq      map[string]int          // facts about symbolic integers (e.g. a type's Kind()) learnt from decisions on this path
 	intNe      map[string]map[int]bool //
+	tupleNames map[string]map[string]string // parameter list -> literal name -> parameter that carries it
 	leafPred   map[*ast.FuncDecl]bool
 	active     map[*ast.FuncDecl][]string // type-argument identity of the active calls, per function (progress check)
 	g9mode     bool // tabulating a predicate: helper predicates are interpreted, only recursive calls are answered by the oracle
@@ -2081,6 +2082,12 @@ func (in *Interp) typesModel(f *VOpaque, args []Value, org string, t types.Type)
 			return r.attr(f.meth, func() Value { return &VOpaque{Origin: org, Kind: "*types.Tuple"} }), true
 		}
 		if f.meth == "Name" {
+			// (*types.Basic).Name() of a kind this path established
+			if r.Kind == "*types.Basic" {
+				if n, ok := in.intEq[r.Origin+".Kind()"]; ok && n > 0 && n < len(types.Typ) {
+					return lit(types.Typ[n].Name()), true
+				}
+			}
 			return r.attr(f.meth, func() Value { return in.nameOfVar(r, org) }), true
 		}
 		return r.attr(f.meth, func() Value { return &VOpaque{Origin: org} }), true
@@ -2102,6 +2109,18 @@ func (in *Interp) typesModel(f *VOpaque, args []Value, org string, t types.Type)
 func (in *Interp) typeString(v Value, bypass bool) VStr {
 	o, ok := v.(*VOpaque)
 	if !ok {
+		// a types.Type implemented by the generator itself (toerror's basicErrorType): go/types prints it with its String()
+		if st, isStruct := v.(*VStruct); isStruct && st.Type != nil {
+			for i := 0; i < st.Type.NumMethods(); i++ {
+				if m := st.Type.Method(i); m.Name() == "String" {
+					if fi := in.repo.Decls[m]; fi != nil {
+						if r, ok := in.callFunc(&VFunc{Decl: fi.Decl, Pkg: fi.Pkg, Recv: v}, nil, token.NoPos).(VStr); ok {
+							return r
+						}
+					}
+				}
+			}
+		}
 		return hole("TYPE", origin(v))
 	}
 	if o.built {
@@ -2342,16 +2361,30 @@ func (in *Interp) nameOfVar(o *VOpaque, org string) Value {
 	if strings.Contains(tuple, ".Results()") {
 		pre = "innerParam_"
 	}
+	// two parameters of one list cannot carry the same (non-blank) name
+	claim := func(n string) Value {
+		if in.tupleNames == nil {
+			in.tupleNames = map[string]map[string]string{}
+		}
+		if in.tupleNames[tuple] == nil {
+			in.tupleNames[tuple] = map[string]string{}
+		}
+		if who, taken := in.tupleNames[tuple][n]; taken && who != o.Origin {
+			panic(abort{kind: "infeasible", msg: "two parameters of one list named " + n})
+		}
+		in.tupleNames[tuple][n] = o.Origin
+		return lit(n)
+	}
 	switch in.decide("NM:"+o.Origin+":named|blank|clash-next|clash-zero", 4) {
 	case 1:
 		return lit("_")
 	case 2:
-		return lit(pre + strconv.Itoa(idx+1))
+		return claim(pre + strconv.Itoa(idx+1))
 	case 3:
 		if idx == 0 {
-			return lit(pre + "9")
+			return claim(pre + "9")
 		}
-		return lit(pre + "0")
+		return claim(pre + "0")
 	}
 	return named
 }
